@@ -247,8 +247,8 @@ pub fn fine_configs(thorough: bool) -> Vec<(String, Vec<Vec<Call>>)> {
         // two conversions of numeric strings (one padded with white space, one seen for the first time): whatever is
         // remembered about converted texts behaves the same with and without contention
         let (n1, n2) = (Arc::new(json!({"==": [" 1", 1]})), Arc::new(json!({"-": ["\u{a0}5"]})));
-        v.push(("fine:num-padded|num-fresh".to_string(), vec![vec![Call { rule: n1, data: d1.clone() }], vec![Call { rule: n2, data: d2.clone() }]]));
-        v.push(("fine:all-literal|some-literal".to_string(), vec![vec![Call { rule: q1, data: d1.clone() }], vec![Call { rule: q2, data: d1.clone() }]]));
+        v.push(("fine:num-padded|num-fresh(cold only)".to_string(), vec![vec![Call { rule: n1, data: d1.clone() }], vec![Call { rule: n2, data: d2.clone() }]]));
+        v.push(("fine:all-literal|some-literal(cold only)".to_string(), vec![vec![Call { rule: q1, data: d1.clone() }], vec![Call { rule: q2, data: d1.clone() }]]));
     }
     if extra.len() == 2 {
         v.push((
@@ -294,6 +294,11 @@ pub fn fine_run(a: &[String]) -> i32 {
     for part in 0..parts {
         for cold in [true, false] {
             for i in 0..cfgs.len() {
+                // configurations aimed at what happens on FIRST use (tables, memos built lazily) are explored from a
+                // cold start only: in a warm process the window they look at is closed
+                if !cold && cfgs[i].0.contains("(cold only)") {
+                    continue;
+                }
                 units.push((i, cold, part, parts));
             }
         }
